@@ -3,7 +3,7 @@ from ..core import Script
 from .. import coregen
 
 ID = "C04"
-SUITES = ["core"]
+SUITES = ["core", "init"]
 LEAN_MODULES = ["VpnCloud.Proofs.C04", "VpnCloud.Proofs.C04Session"]
 THEOREMS = ["VpnCloud.Proofs.C04." + n for n in ("increment_val", "increment_wf", "encrypt_spec", "send_strictly_increasing", "seal_log_nodup", "stays_in_half", "halves_disjoint", "reconstruct_iff", "beyond_56_bits_rejected", "rotate_fresh")] + [
     "VpnCloud.Proofs.C04Session." + n for n in ("session_seal_log_nodup", "session_halves_disjoint", "open_keeps_send", "send_monotone_between_rotations", "counter_never_wraps")]
@@ -41,7 +41,11 @@ def classify(script, result):
 
 
 def gen(tier, rng):
-    return coregen.core_scripts(tier, rng, ID)
+    for x in coregen.core_scripts(tier, rng, ID):
+        yield x
+    # "the two ends of a connection draw from disjoint halves": also when both handshake objects drew the same salt
+    from .. import initgen
+    yield initgen.equal_salt_script(rng.fork("salt"), "equal-salt")
 RULE = ("suite core: Nonce::increment on all byte-carry boundary patterns (k trailing ff bytes x boundary byte x fill) and random values; send counters "
         "forced to and around every byte-carry boundary, 2^48, 2^56 and 2^64 in both halves with seal + delivery; seal logs of both ends over random "
         "histories with rotations checked for pairwise distinct (key, nonce), strict increase and half membership; "
